@@ -1,7 +1,7 @@
 /-
   Driver ops for C16 (one follower session against one leader state):
 
-    sess <bk> <L> <F> <ch> <cut> <lost>
+    sess <bk> <L> <F> <ch> <cut> <lost> <fuel>
       bk   : d | m                       (disk StoreChannel / MemoryChannel)
       L    : <started>:<ids>:<cur>:<data>:<wopen>     ids comma separated, `.` = none
       F    : <cur>|<id>=<data>|…                      `_` = empty id
@@ -9,6 +9,7 @@
       ch   : `.` | n,n,…                 sizes of the CONTINUE chunks as observed
       cut  : messages delivered before the transport fails
       lost : received stream bytes not persisted when the writer was closed
+      fuel : metaSync rounds the harness lets the follower make
   →
     m <CODE> id=<id> aof=<0|1> off=<int> size=<int> data=<hex>      per delivered message
     end <stage> <class>
@@ -86,7 +87,7 @@ def showCls : Cls → String
   | .discont => "discont" | .fuel => "fuel"
 
 def handle : List String → Option (List String)
-  | ["sess", bk, l, f, ch, cut, lost] =>
+  | ["sess", bk, l, f, ch, cut, lost, fuel] =>
     let r : Option (List String) := do
       let bk ← if bk == "d" then some Backend.disk else if bk == "m" then some Backend.mem else none
       let L ← parseLeader l
@@ -94,7 +95,8 @@ def handle : List String → Option (List String)
       let ch ← parseNats ch
       let cut ← cut.toNat?
       let lost ← lost.toNat?
-      let o := session bk L F ch cut lost (cut + 1)
+      let fuel ← fuel.toNat?
+      let o := session bk L F ch cut lost fuel
       pure (o.trace.map showMsg ++ [s!"end {showStage o.stage} {showCls o.cls}", "F " ++ showStore bk o.store])
     some (r.getD ["bad-op"])
   | _ => none
